@@ -252,6 +252,18 @@ func AddrIn[T any](v T) T {
 	return *f()
 }
 
+// AddrSwap reuses the pointer to one local after the pointer variable was redirected.
+func AddrSwap[T any](v, w T) (T, T) {
+	x := v
+	y := w
+	p := &x
+	p = &y
+	q := &x
+	*q = *p
+	*p = v
+	return x, y
+}
+
 var pkgVar int32 = 3
 
 func PtrGeneric[T any](v T) *int32 { return &pkgVar }
@@ -584,6 +596,7 @@ func same(x, y interface{}) (r string) {
 			fmt.Fprintf(&b, "\temit(\"fconv%s\", g.ShowNum(g.Conv[%s, float32](%s))+g.ShowNum(g.Conv[%s, float64](%s)))\n", id, t.Go, v, t.Go, v)
 		}
 		fmt.Fprintf(&b, "\temit(\"addr%s\", describe(g.AddrIn(%s))+lib.Btoa(g.PtrGeneric(%s) == g.PtrPlain()))\n", id, v, v)
+		fmt.Fprintf(&b, "\t{\n\t\tx, y := g.AddrSwap(%s, g.Zero[%s]())\n\t\temit(\"addrswap%s\", describe(x)+describe(y))\n\t}\n", v, t.Go, id)
 		fmt.Fprintf(&b, "\t{\n\t\ts := \"\"\n\t\tg.Drain(g.Feed(%s, g.Zero[%s]()), func(x %s) { s += describe(x) })\n\t\temit(\"drain%s\", s)\n\t}\n", v, t.Go, t.Go, id)
 		// function value of an instance, method value and method expression of an instance
 		fmt.Fprintf(&b, "\t{\n\t\tf := g.Buffered[%s]\n\t\tst := &g.Stack[%s]{}\n\t\tpush := st.Push\n\t\tpop := (*g.Stack[%s]).Pop\n\t\tpush(f(%s))\n\t\tx, _ := pop(st)\n\t\temit(\"fv%s\", describe(x))\n\t}\n", t.Go, t.Go, t.Go, v, id)
